@@ -114,6 +114,41 @@ func transferMatrix(c *harness.Ctx, enabled []string, each func(s *Scn, l *node.
 	}
 }
 
+// bigMulti: multi-transfers of 255 / 256 / 257 / 300 entries (counts that do not fit a byte),
+// repeated tokens, same shard and cross shard.
+func bigMulti(c *harness.Ctx, enabled []string) {
+	for i, n := range []int{255, 256, 257, 300} {
+		if !mine(c, i) {
+			continue
+		}
+		for _, S := range []uint32{1, 2} {
+			s := NewScn(c.Rand("bigmulti").Fork(uint64(n)), c.R, ScnOpts{Shards: S, Enabled: enabled})
+			var items []gen.Item
+			for k := 0; k < n; k++ {
+				switch k % 3 {
+				case 0:
+					items = append(items, gen.Item{ID: s.F1, Nonce: 0, Qty: big.NewInt(1)})
+				case 1:
+					items = append(items, gen.Item{ID: s.F2, Nonce: 0, Qty: big.NewInt(int64(k))})
+				default:
+					if k < 9 {
+						items = append(items, gen.Item{ID: s.SFT, Nonce: 1, Qty: big.NewInt(1)})
+					} else {
+						items = append(items, gen.Item{ID: s.F1, Nonce: 0, Qty: big.NewInt(2)})
+					}
+				}
+			}
+			for _, dst := range [][]byte{s.Same, s.Other, s.KOther} {
+				gen.Must(s.U.N.Exec(gen.MultiCall(s.A, dst, items, gen.BigGas, attachedFor(dst)...)), "big multi")
+				for _, l := range drain(s.U.N) {
+					gen.Must(l, "big multi delivery")
+				}
+			}
+			c.R.Eval(s.U.N.Seq())
+		}
+	}
+}
+
 // selfTransfers: ESDTTransfer where sender and destination are the same account (one object plays
 // both roles); NFT / multi transfers to oneself must be rejected.
 func selfTransfers(c *harness.Ctx, enabled []string) {
@@ -295,7 +330,8 @@ func init() {
 			aliasCases(c, en)
 			selfTransfers(c, en)
 			forgedDeliveries(c, en)
-			runWalks(c, c.Scale(30, 600), c.Scale(70, 120), 12, true, en...)
+			bigMulti(c, en)
+			runWalks(c, c.Scale(400, 1500), c.Scale(70, 120), 12, true, en...)
 		},
 	})
 	// ------------------------------------------------------------------------------------ C02
@@ -310,7 +346,7 @@ func init() {
 			transferMatrix(c, []string{"C02"}, nil)
 			selfTransfers(c, []string{"C02"})
 			forgedDeliveries(c, []string{"C02"})
-			runWalks(c, c.Scale(25, 500), c.Scale(70, 120), 15, true, "C02")
+			runWalks(c, c.Scale(400, 1500), c.Scale(70, 120), 15, true, "C02")
 		},
 	})
 	// ------------------------------------------------------------------------------------ C03
@@ -322,7 +358,7 @@ func init() {
 		Floors:      map[string]int64{"C03/authorised-success:*": 200, "C03/unauthorised-rejected:*": 500},
 		Run: func(c *harness.Ctx) {
 			c03Directed(c)
-			runWalks(c, c.Scale(25, 500), c.Scale(70, 120), 20, true, "C03")
+			runWalks(c, c.Scale(400, 1500), c.Scale(70, 120), 20, true, "C03")
 		},
 	})
 	// ------------------------------------------------------------------------------------ C04
@@ -334,7 +370,7 @@ func init() {
 		Floors:      map[string]int64{"C04/blocked:*": 150, "C04/exempt-refund:*": 10, "C04/unfreeze-restores": 5},
 		Run: func(c *harness.Ctx) {
 			c04Directed(c)
-			runWalks(c, c.Scale(25, 500), c.Scale(70, 120), 10, true, "C04")
+			runWalks(c, c.Scale(400, 1500), c.Scale(70, 120), 10, true, "C04")
 		},
 	})
 	// ------------------------------------------------------------------------------------ C05
@@ -347,7 +383,7 @@ func init() {
 		Run: func(c *harness.Ctx) {
 			c05Directed(c)
 			transferMatrix(c, []string{"C05"}, nil)
-			runWalks(c, c.Scale(25, 500), c.Scale(70, 120), 25, true, "C05")
+			runWalks(c, c.Scale(400, 1500), c.Scale(70, 120), 25, true, "C05")
 		},
 	})
 	// ------------------------------------------------------------------------------------ C07
@@ -359,7 +395,7 @@ func init() {
 		Floors:      map[string]int64{"C07/create": 300, "C07/handover-complete:*": 60, "C07/create-rejected-during-handover": 5},
 		Run: func(c *harness.Ctx) {
 			c07Histories(c)
-			runWalks(c, c.Scale(25, 500), c.Scale(70, 120), 8, true, "C07")
+			runWalks(c, c.Scale(400, 1500), c.Scale(70, 120), 8, true, "C07")
 		},
 	})
 	// ------------------------------------------------------------------------------------ C08
@@ -372,7 +408,7 @@ func init() {
 		Run: func(c *harness.Ctx) {
 			c08Routes(c)
 			transferMatrix(c, []string{"C08"}, nil)
-			runWalks(c, c.Scale(20, 400), c.Scale(70, 120), 8, true, "C08")
+			runWalks(c, c.Scale(400, 1500), c.Scale(70, 120), 8, true, "C08")
 		},
 	})
 	// ------------------------------------------------------------------------------------ C09
@@ -388,7 +424,7 @@ func init() {
 			if c.Batch == 0 {
 				c09MetaNode(c)
 			}
-			runWalks(c, c.Scale(20, 400), c.Scale(70, 120), 10, true, "C09")
+			runWalks(c, c.Scale(400, 1500), c.Scale(70, 120), 10, true, "C09")
 		},
 	})
 	// ------------------------------------------------------------------------------------ C10
@@ -403,7 +439,8 @@ func init() {
 			transferMatrix(c, en, nil)
 			refundMatrix(c, en)
 			c10Extra(c)
-			runWalks(c, c.Scale(25, 500), c.Scale(70, 120), 10, true, en...)
+			bigMulti(c, en)
+			runWalks(c, c.Scale(400, 1500), c.Scale(70, 120), 10, true, en...)
 		},
 	})
 }
@@ -417,7 +454,8 @@ func c02Directed(c *harness.Ctx) {
 		b100 := new(big.Int).SetBytes(bytes.Repeat([]byte{0xff}, 100))
 		b101 := new(big.Int).SetBytes(bytes.Repeat([]byte{0xff}, 101))
 		return []*big.Int{big.NewInt(0), big.NewInt(1), new(big.Int).Sub(bal, big.NewInt(1)), new(big.Int).Set(bal), new(big.Int).Add(bal, big.NewInt(1)),
-			new(big.Int).Mul(bal, big.NewInt(2)), b100, b101}
+			new(big.Int).Mul(bal, big.NewInt(2)), b100, b101,
+			big.NewInt(255), big.NewInt(256), gen.Pow2(32), new(big.Int).Sub(gen.Pow2(63), big.NewInt(1)), gen.Pow2(63), new(big.Int).Sub(gen.Pow2(64), big.NewInt(1)), gen.Pow2(64), new(big.Int).Add(gen.Pow2(64), big.NewInt(1)), gen.Pow2(128)}
 	}
 	i := 0
 	for _, S := range []uint32{1, 2} {
@@ -539,6 +577,16 @@ func c03Directed(c *harness.Ctx) {
 				for b := 0; b < 7; b++ {
 					if subset&(1<<uint(b)) != 0 {
 						roles = append(roles, gen.AllRoles[b])
+					}
+				}
+				// the stored order varies with the subset (rotations and a reversal)
+				if len(roles) > 1 {
+					k := (subset / 3) % len(roles)
+					roles = append(append([]string{}, roles[k:]...), roles[:k]...)
+					if subset%2 == 1 {
+						for a, b := 0, len(roles)-1; a < b; a, b = a+1, b-1 {
+							roles[a], roles[b] = roles[b], roles[a]
+						}
 					}
 				}
 				if len(roles) > 0 {
@@ -907,7 +955,7 @@ func c05Directed(c *harness.Ctx) {
 // C07 histories
 
 func c07Histories(c *harness.Ctx) {
-	nh := c.Scale(24, 400)
+	nh := c.Scale(240, 4000)
 	for h := 0; h < nh; h++ {
 		if !mine(c, h) {
 			continue
@@ -1017,7 +1065,7 @@ func c07Histories(c *harness.Ctx) {
 func c08Routes(c *harness.Ctx) {
 	royalties := []*big.Int{big.NewInt(0), big.NewInt(1), big.NewInt(9999), big.NewInt(10000), big.NewInt(10001), new(big.Int).SetUint64(1<<32 - 1), new(big.Int).SetUint64(1 << 32), new(big.Int).SetUint64(1<<32 + 1), new(big.Int).SetUint64(1<<32 + 10001)}
 	sizes := []int{0, 1, 17, 4096}
-	nr := c.Scale(96, 1500)
+	nr := c.Scale(640, 6000)
 	for h := 0; h < nr; h++ {
 		if !mine(c, h) {
 			continue
